@@ -223,6 +223,37 @@ func propC12(c *Ctx) {
 			c.concScenario("same-language-cold-start:word-cover", 32, ops)
 		}
 	}
+	// cold start of one language by 32 goroutines whose sentences consist of the words that stand where the
+	// list is NOT in byte order (Czech has exactly one such place: svetr / svatba): a search that assumes sorted
+	// tables — used, say, only while the real table is still being built — is wrong for these words and only these
+	for li := range langVals {
+		l := int64(langVals[li])
+		words := c.canonWords(l)
+		var inv []int
+		for i := 0; i+1 < len(words) && len(inv) < 46; i++ {
+			if words[i] > words[i+1] {
+				inv = append(inv, i, i+1)
+			}
+		}
+		if len(inv) == 0 {
+			continue
+		}
+		invReps := 2
+		if !c.quick {
+			invReps = 12
+		}
+		for k := 0; k < invReps; k++ {
+			ops := []string{}
+			for g := 0; g < 32; g++ {
+				e := c.randBytes(32)
+				for p := 0; p < 23; p++ {
+					setGroup(e, p, inv[(g+p+k)%len(inv)])
+				}
+				ops = append(ops, fmt.Sprintf("chk %d %s", l, hx([]byte(strings.ReplaceAll(c.specSentence(l, e), "　", " ")))))
+			}
+			c.concScenario("same-language-cold-start:order-inversions", 32, ops)
+		}
+	}
 	for k := 0; k < reps; k++ {
 		li := k % 10
 		ops := []string{}
